@@ -376,8 +376,9 @@ def _urls_battery(histories):
     steps = [(name, mode) for name in KINDS for mode in ("document", "fragment")] + ["clear"]
     seqs = [s for k in (1, 2) for s in itertools.product(steps, repeat=k) if s[-1] != "clear"] if histories else []
     r = worker((REPO, seqs, True))
-    if r["fails"]:
-        f = r["fails"][0]
+    fails = [f for f in r["fails"] if not f.get("known_finding")]      # recorded findings (F-C19a: class-factory twins) are re-confirmed by the bounded check, not here
+    if fails:
+        f = fails[0]
         return {"confirmed": True, "function": "cached_script_view (through django's test client and the library's urlconf)", "inputs": f["input"],
                 "expected": f["expected"], "observed": f["observed"], "clause": f["clause"]}
     return {"confirmed": False}
